@@ -81,6 +81,12 @@ def pickletools_codes():
 
 # ------------------------------------------------------------------------------------------- C04
 
+UNSUPPORTED_CONTEXTS = [b"c__main__\nFoo\n)R}", b"c__main__\nFoo\n)R", b"c__main__\nFoo\n)R(", b"c__main__\nFoo\n", b"}", b"]", b"(", b"N",
+                        b"NN", b"\x80\x02c__main__\nFoo\n)R}q\x00", b"(c__main__\nFoo\n)RN", b"I1\nc__main__\nFoo\n)RV\n", b"]q\x00(",
+                        b"\x80\x04\x95\x00\x00\x00\x00\x00\x00\x00\x00\x8c\x01m\x8c\x01n\x93)R}", b"(c__main__\nFoo\n)R}",
+                        b"c__main__\nFoo\n(K\x01", b"c__main__\nFoo\n)R}(V\nN", b"c__main__\nFoo\nc__main__\nBar\n)R"]
+
+
 class C04:
     prop = "C04"
     level_text = ("Lean theorems over the decoder model for ALL inputs, configurations, hooks and prior states: no panic outcome is "
@@ -115,8 +121,18 @@ class C04:
             ins.append(("opcode", b"(K\x01K\x02" + bytes([k]) + b"."))
         for v in range(256):
             ins.append(("proto", b"\x80" + bytes([v]) + b"N."))
+            # PROTO is an ordinary opcode: later in the stream its argument is checked all the same
+            for pre in (b"N0", b"\x80\x02N0", b"K\x010", b"\x80\x04\x95\x00\x00\x00\x00\x00\x00\x00\x00N0", b"]q\x000"):
+                ins.append(("proto-late", pre + b"\x80" + bytes([v]) + b"N."))
+        # every byte in opcode position after realistic stack contexts (what CPython writes for class instances,
+        # reduce results, open marks, memoized containers)
+        for pre in UNSUPPORTED_CONTEXTS:
+            for k in range(256):
+                ins.append(("opcode-ctx", pre + bytes([k]) + b"."))
         for b in P.length_field_cases():
             ins.append(("length", b))
+        for b, _ in P.boundary_programs(rng, sample=ctx.scale(40, 400)):
+            ins.append(("boundary", b))
         corpus = corpus_files(ctx.scale(500, None))
         for b in corpus:
             ins.append(("corpus", b))
@@ -195,6 +211,15 @@ class C04:
             m = re.match(r"ERR opcode:(\d+)", g)
             if m and kind == "opcode" and len(data) <= 2 and int(m.group(1)) != data[0]:
                 ctx.violate("OpcodeError carries the wrong byte", line, f"opcode:{data[0]}", g)
+            if kind == "opcode-ctx":
+                k = data[-2]
+                if (k not in codes or l == f"ERR opcode:{k}") and g != f"ERR opcode:{k}":
+                    ctx.violate("a byte the decoder does not support is not reported as OpcodeError with that byte (after a stack context)",
+                                line, f"ERR opcode:{k}", g)
+            if kind == "proto-late":
+                v = data[-3]
+                if (v <= 5) != g.startswith("OK N ") or (v > 5 and g != "ERR invalidVersion"):
+                    ctx.violate("PROTO version handling (PROTO not first in the stream)", line, "OK N" if v <= 5 else "ERR invalidVersion", g)
             if kind == "proto":
                 v = data[1]
                 want = "OK N 4" if v <= 5 else "ERR invalidVersion"
@@ -272,6 +297,7 @@ class C10:
                     b"\x8e" + struct.pack("<Q", n) + pay + b".", b"\x8d" + struct.pack("<Q", n) + b"v" * n + b"."]
         out += [pickle.dumps(["a" * 70000, b"b" * 66000, bytearray(b"c" * 65600)], p) for p in (2, 3, 4, 5)]
         out += own_corpus("C10")
+        out += [prog for prog, _ in P.boundary_programs(rng, sample=ctx.scale(40, 400))]
         # encoder output (through the implementation itself)
         vals = []
         for _ in range(ctx.scale(150, 3000)):
@@ -358,7 +384,9 @@ class C10:
                                     f"dec {cfg} - {hexs(data[:bad])}   (cut {bad} of {hexs(data)})", want[bad],
                                     letters[bad] if bad < len(letters) else "missing")
             elif k == "full":
-                fullok[(cfg, data)] = g.startswith("OK ") and g.endswith(f" {len(data)}")
+                # a valid pickle: the implementation, or the model (which is what the theorem quantifies over), decodes
+                # exactly these bytes to a value
+                fullok[(cfg, data)] = any(a.startswith("OK ") and a.endswith(f" {len(data)}") for a in (g, l))
                 ctx.count("long-pickle:" + ("valid" if fullok[(cfg, data)] else "invalid"))
                 if fullok[(cfg, data)]:
                     ctx.nontrivial((cfg, data))
@@ -533,6 +561,21 @@ class C11:
         for _ in range(ctx.scale(1200, 25000)):
             k = rng.randint(1, 8)
             streams.append([rng.choice(pool) for _ in range(k)])
+        # streams longer than the decoder's 4096-byte read buffer: a later pickle's opcode argument straddles the refill
+        # boundary; several long text lines (each longer than the buffer) go through the same Decoder
+        for prog, buf in P.boundary_programs(rng, sample=ctx.scale(60, 400)):
+            body = prog[:-1]
+            cut = rng.choice([0, 2 * (len(body) // 4), 2 * ((buf - 64) // 2)])        # the padding is 2-byte units: split it into pickles
+            first = body[:cut] + b"N." if cut else b""
+            pad2 = body[cut:]
+            # keep the total offset: the first pickle gained 2 bytes (N.), drop one padding unit from the second
+            ps = ([first] if first else []) + [(pad2[2:] if first and pad2[:2] == b"N0" else pad2) + b".", b"K\x07."]
+            streams.append(ps)
+        longs = [b"V" + b"a" * 5000 + b"\n.", b"N.", b"V" + b"b" * 4500 + b"\n.", b"S'" + b"c" * 4200 + b"'\n.", b"I" + b"7" * 4100 + b"\n.",
+                 b"P" + b"d" * 4097 + b"\n.", b"cmod\n" + b"e" * 6000 + b"\n.", b"V" + b"f" * 9000 + b"\n.", b"Vshort\n.", b"L" + b"1" * 4200 + b"L\n."]
+        for _ in range(ctx.scale(25, 300)):
+            streams.append([rng.choice(longs) for _ in range(rng.randint(2, 5))])
+        streams.append(longs)
         for ps in streams:
             cfg = rng.choice(CFGS)
             lines.append(f"decs {cfg} - {hexs(b''.join(ps))}")
@@ -698,7 +741,9 @@ class C14:
 
 def unhashable_atoms():
     return [b"]", b"}", b"\x96\x01\x00\x00\x00\x00\x00\x00\x00a", b"(K\x01l", b"(K\x01K\x02d", b"]K\x01a",
-            b"\x96\x00\x00\x00\x00\x00\x00\x00\x00", b"(l", b"(d", b"c__builtin__\nbytearray\n)R"]
+            b"\x96\x00\x00\x00\x00\x00\x00\x00\x00", b"(l", b"(d", b"c__builtin__\nbytearray\n)R",
+            # a dict that contains itself (d['a'] = d), directly and through a tuple: whatever reports the bad key must not walk it forever
+            b"}q\x00U\x01ah\x00s", b"}q\x00U\x01ah\x00\x85s", b"}q\x09(U\x01ah\x09U\x01bh\x09u", b"]q\x00h\x00a"]
 
 
 def wrap_key(atom, depth, kind, rng):
@@ -846,6 +891,15 @@ class C17:
                     tail = f"{op} {k}" + (" I1" if op == "S" else "")
                     dl.append("dict " + (pre + " ; " if pre else "") + tail)
                     dm.append((n, op, k))
+        # the zero value Dict{} (the documented nil dictionary: empty; Set with a hashable key is not allowed on it)
+        for k in bad_keys:
+            for op in ("G", "D", "S"):
+                dl.append(f"dictz {op} {k}" + (" I1" if op == "S" else ""))
+                dm.append((0, op, k))
+        for good in ("I1", "t( I1 )", "S61"):
+            for k in bad_keys[:6]:
+                dl.append(f"dictz G {good} ; D {good} ; G {k}")
+                dm.append((0, "G", k))
         dgo, dlean = run_both(dl)
         for line, (n, op, k), g, l in zip(dl, dm, dgo, dlean):
             ctx.evaluations += 1
@@ -959,6 +1013,16 @@ class C18:
             rh = rng.choice(["-", "S", "S", "T", "N", "E"])
             lines.append(f"enc {p} {int(su)} {rh} {V.render(v, sort=False)}")
             meta.append(("enc", (rh, p, v, pd, su)))
+        # a mapped object in every kind of container, with hooks whose ids protocol 0 cannot write: the error must surface
+        x1 = ("X", 1)
+        for shape in (x1, ("l", [x1]), ("t", [x1]), ("d", [(("S", b"k"), x1)]), ("d", [(x1, ("I", 1))]), ("m", [(("S", b"k"), x1)]),
+                      ("m", [(x1, ("I", 1))]), ("c", b"m", b"n", [x1]), ("R", x1), ("l", [("d", [(("S", b"k"), ("t", [x1]))])]),
+                      ("d", [(("S", b"k"), ("d", [(("S", b"j"), x1)]))]), ("t", [("d", [(("I", 1), x1)]), ("I", 2)])):
+            for rh in ("T", "N", "S"):
+                for p in (0, 1, 2):
+                    for su in (0, 1):
+                        lines.append(f"enc {p} {su} {rh} {V.render(shape, sort=False)}")
+                        meta.append(("enc", (rh, p, shape, V.contains(shape, lambda x: x[0] == "d"), bool(su))))
         go, lean = run_both(lines)
         self.run_holders(ctx)
         self.run_nested_ids(ctx)
@@ -994,6 +1058,9 @@ class C18:
                         v, lambda x: x[0] == "R" and (x[1][0] != "S" or b"\n" in x[1][1])):
                     ctx.violate("protocol 0 wrote a persistent id that is not a single-line string instead of returning the documented error",
                                 line[:600], "ERR p0-persid", g[:200])
+                if rh in ("T", "N") and p == 0 and not g.startswith("ERR") and V.contains(v, lambda x: x[0] == "X"):
+                    ctx.violate("protocol 0 cannot write the persistent id the hook returned (a tuple / a multi-line string), yet Encode "
+                                "reported success", line[:600], "ERR p0-persid", g[:200])
                 if kind == "enc" and rh.startswith("-") and "PANIC" in g:
                     ctx.violate("Encode panicked", line[:600], "bytes or error", g[:200])
                 ctx.count(f"refhook={rh}:p{p}:{g.split(' ')[0]}{(':' + g.split(' ')[1]) if g.startswith('ERR') else ''}")
@@ -1038,8 +1105,16 @@ class C18:
             h = (kind, inner, x)
             names = (b"a", b"b") if kind == "G" else (b"A", b"B")
             want_h = ("d" if pd else "m", [(("S", names[0]), inner), (("S", names[1]), x if x[0] == "X" else ("N",))])
-            shape = rng.choice(["top", "list", "tuple", "nested"])
-            if shape == "top":
+            shape = rng.choice(["top", "list", "tuple", "nested", "values"])
+            mk = "d" if pd else "m"
+            if shape == "values":
+                # typed slices of struct VALUES: PersistentRef is for pointers only, the elements are written as structs
+                ns = [rng.randint(0, 9) for _ in range(rng.randint(0, 3))]
+                ms = [rng.randint(0, 9) for _ in range(rng.randint(0, 2))]
+                v = ("l", [("X", 1), ("u", ns), h, ("w", ms)])
+                want = ("l", [("X", 1), ("l", [(mk, [(("S", b"N"), ("I", n))]) for n in ns]), want_h,
+                              ("l", [(mk, [(("S", b"A"), ("I", n)), (("S", b"B"), ("X", n))]) for n in ms])])
+            elif shape == "top":
                 v, want = h, want_h
             elif shape == "list":
                 v, want = ("l", [("X", 1), h, ("I", 5)]), ("l", [("X", 1), want_h, ("I", 5)])
